@@ -46,6 +46,7 @@ func NewReader(r io.Reader) io.ReadCloser {
 		rr.rBuf = ur
 	} else {
 		rr.rBuf = bufio.NewReader(r)
+		rr.ownBuf = true
 	}
 	return rr
 }
@@ -57,6 +58,7 @@ type decompressor struct {
 	historyBuffer [2*historySize + lookAhead]uint8
 	r             io.Reader
 	rBuf          *bufio.Reader
+	ownBuf        bool // rBuf was allocated by this Reader (not supplied by the caller)
 	err           error
 	peekSize      int
 	eof           bool
@@ -68,11 +70,15 @@ func (r *decompressor) Reset(under io.Reader, _ []byte) error {
 	r.r = under
 	if ur, ok := under.(*bufio.Reader); ok {
 		r.rBuf = ur
+		r.ownBuf = false
 	} else {
-		if r.rBuf != nil {
+		// only a buffer this Reader allocated itself may be re-targeted: rBuf
+		// can be the caller's *bufio.Reader of an earlier NewReader or Reset
+		if r.rBuf != nil && r.ownBuf {
 			r.rBuf.Reset(under)
 		} else {
 			r.rBuf = bufio.NewReader(under)
+			r.ownBuf = true
 		}
 	}
 
